@@ -82,13 +82,13 @@ func main() {
 	h.sequencerProbe(root.Fork(6_666_666))
 	h.fallbackProbe(root.Fork(5_555_555))
 	lap("probes")
-	nSeq := f.Scale(260, 6000)
+	nSeq := f.Scale(260, 4500)
 	h.parallel(nSeq, func(w *harness, i int) { w.seqCase(root.Fork(uint64(i)), i) })
 	lap("seq")
-	nOv := f.Scale(500, 12000)
+	nOv := f.Scale(500, 9000)
 	h.parallel(nOv, func(w *harness, i int) { w.overlayCase(root.Fork(uint64(1_000_000+i)), i) })
 	lap("overlay")
-	nLive := f.Scale(120, 2500)
+	nLive := f.Scale(120, 2000)
 	h.parallel(nLive, func(w *harness, i int) { w.liveCase(liveRNG(f.Seed, i), i) })
 	lap("live")
 	h.concurrentChild()
